@@ -2,11 +2,8 @@ package main
 
 import (
 	"fmt"
-	"go/ast"
 	"go/token"
 	"go/types"
-	"regexp"
-	"sort"
 	"strconv"
 	"strings"
 
@@ -201,7 +198,7 @@ func ruleFieldDispatch(c *Ctx) []Ob {
 		okEdge := true
 		for _, p := range skip.Block().Preds {
 			iff, ok := p.Instrs[len(p.Instrs)-1].(*ssa.If)
-			if !ok || p.Succs[0] != skip.Block() {
+			if !ok || p.Succs[0] == p.Succs[1] {
 				okEdge = false
 				continue
 			}
@@ -210,8 +207,11 @@ func ruleFieldDispatch(c *Ctx) []Ob {
 				okEdge = false
 				continue
 			}
-			isNilT := bo.Op == token.EQL && (bo.X == ssa.Value(get) && isNilConst(bo.Y))
-			isWT := bo.Op == token.NEQ && (strings.HasSuffix(path(bo.X), ".Type.WT") || strings.HasSuffix(path(bo.Y), ".Type.WT"))
+			// the sense of the comparison on the edge that enters the skip block
+			equal := bo.Op == token.EQL && p.Succs[0] == skip.Block() || bo.Op == token.NEQ && p.Succs[1] == skip.Block()
+			differ := bo.Op == token.NEQ && p.Succs[0] == skip.Block() || bo.Op == token.EQL && p.Succs[1] == skip.Block()
+			isNilT := equal && (bo.X == ssa.Value(get) && isNilConst(bo.Y) || bo.Y == ssa.Value(get) && isNilConst(bo.X))
+			isWT := differ && (strings.HasSuffix(path(bo.X), ".Type.WT") || strings.HasSuffix(path(bo.Y), ".Type.WT"))
 			if !isNilT && !isWT {
 				okEdge = false
 			}
@@ -716,97 +716,85 @@ func reachesAvoidingEither(from, to, avoid *ssa.BasicBlock, skipSet map[*ssa.Bas
 
 func ruleSkipFlags(c *Ctx) []Ob {
 	s := newSink(c, "F.skip-flags")
-	fd, p := c.funcDecl(pkgReflect, "tField.fromDefsField")
-	if fd == nil {
+	fn := c.Func(pkgReflect, "(*tField).fromDefsField")
+	if fn == nil || len(fn.Params) < 2 {
 		s.bad("fromDefsField", "-", "not found")
 		return s.obs
 	}
-	norm := func(e ast.Expr) string {
-		e = ast.Unparen(e)
-		if be, ok := e.(*ast.BinaryExpr); ok && (be.Op == token.EQL || be.Op == token.NEQ) {
-			x, y := types.ExprString(ast.Unparen(be.X)), types.ExprString(ast.Unparen(be.Y))
-			if x > y {
-				x, y = y, x
+	opt, _ := c.constOf(pkgDefs, "Optional")
+	tptr, _ := c.constOf(pkgDefs, "T_pointer")
+	tbin, _ := c.constOf(pkgDefs, "T_binary")
+	ncp, _ := c.constOf(pkgDefs, "NoCopy")
+	aOpt, aPtr, aBin := fmt.Sprintf("Spec==%d", opt), fmt.Sprintf("Tag==%d", tptr), fmt.Sprintf("Tag==%d", tbin)
+	aCont, aDefNil, aNoCopy0 := "containerTypes[T]", "Default==nil", fmt.Sprintf("(Opts&%d)==0", ncp)
+	type verdict struct {
+		bad  string
+		seen int
+	}
+	res := map[string]*verdict{"CanSkipEncodeIfNil": {}, "CanSkipIfDefault": {}, "NoCopy": {}, "Spec": {}}
+	note := func(flag string, a map[string]bool, p simPath, got tri, want bool) {
+		v := res[flag]
+		v.seen++
+		if v.bad != "" {
+			return
+		}
+		switch {
+		case got == triU:
+			for u := range p.unknown {
+				if strings.HasPrefix(u, flag+" ") {
+					v.bad = u + ", which is not part of the stated condition"
+				}
 			}
-			return x + " " + be.Op.String() + " " + y
+			if v.bad == "" {
+				v.bad = "depends on a value that is not part of the stated condition"
+			}
+		case (got == triT) != want:
+			v.bad = fmt.Sprintf("with %s the function leaves %s = %v on the path returning at %s, the stated condition gives %v", assignStr(a), flag, got, c.InstrPos(p.ret), want)
 		}
-		return types.ExprString(e)
 	}
-	var flatten func(e ast.Expr, op token.Token) []ast.Expr
-	flatten = func(e ast.Expr, op token.Token) []ast.Expr {
-		e = ast.Unparen(e)
-		if be, ok := e.(*ast.BinaryExpr); ok && be.Op == op {
-			return append(flatten(be.X, op), flatten(be.Y, op)...)
+	flagOf := func(p simPath, name string) tri {
+		if t, ok := p.flags[name]; ok {
+			return t
 		}
-		return []ast.Expr{e}
+		return triF // zero value of a fresh field
 	}
-	// resolve local aliases: t := f.Type ; v := x.Default ...
-	alias := map[string]string{}
-	ast.Inspect(fd, func(n ast.Node) bool {
-		if as, ok := n.(*ast.AssignStmt); ok && as.Tok == token.DEFINE && len(as.Lhs) == 1 && len(as.Rhs) == 1 {
-			if id, ok := as.Lhs[0].(*ast.Ident); ok {
-				alias[id.Name] = types.ExprString(as.Rhs[0])
+	paths, over := truthTable(fn, fn.Params[0], []string{aOpt, aPtr, aBin, aCont, aDefNil, aNoCopy0},
+		func(a map[string]bool) bool { return !(a[aPtr] && a[aBin]) },
+		func(a map[string]bool, p simPath) {
+			note("CanSkipEncodeIfNil", a, p, flagOf(p, "CanSkipEncodeIfNil"), a[aOpt] && (a[aPtr] || a[aBin] || a[aCont]))
+			hasDefault := p.stored["Default"] && !a[aDefNil]
+			note("CanSkipIfDefault", a, p, flagOf(p, "CanSkipIfDefault"), a[aOpt] && !a[aPtr] && hasDefault)
+			note("NoCopy", a, p, flagOf(p, "NoCopy"), !a[aNoCopy0])
+			res["Spec"].seen++
+			if !p.stored["Spec"] && res["Spec"].bad == "" {
+				res["Spec"].bad = "Spec is not assigned on the path returning at " + c.InstrPos(p.ret)
+			}
+		})
+	if over || paths == 0 {
+		s.undec("truth-table", c.Pos(fn.Pos()), fmt.Sprintf("fromDefsField could not be evaluated over its condition atoms (%d paths, bound exceeded: %v)", paths, over))
+	}
+	// Spec is copied unchanged from the resolved field
+	for _, b := range fn.Blocks {
+		for _, ins := range b.Instrs {
+			if st, ok := ins.(*ssa.Store); ok {
+				if recv, _, f, ok := fieldOf(st.Addr); ok && f == "Spec" && recv == ssa.Value(fn.Params[0]) {
+					if pv := strings.TrimPrefix(path(st.Val), "&"); !(strings.HasPrefix(pv, fn.Params[1].Name()+".") && strings.HasSuffix(pv, ".Spec")) && res["Spec"].bad == "" {
+						res["Spec"].bad = "Spec is not copied unchanged from the resolved field (stores " + pv + " at " + c.InstrPos(st) + ")"
+					}
+				}
 			}
 		}
-		return true
-	})
-	recv := fd.Recv.List[0].Names[0].Name
-	canon := func(sv string) string {
-		for k, v := range alias {
-			re := regexp.MustCompile(`\b` + regexp.QuoteMeta(k) + `\.`)
-			sv = re.ReplaceAllString(sv, v+".")
-		}
-		re := regexp.MustCompile(`\b` + regexp.QuoteMeta(recv) + `\.`)
-		sv = re.ReplaceAllString(sv, "f.")
-		return sv
 	}
-	set := func(es []ast.Expr) []string {
-		var out []string
-		for _, e := range es {
-			out = append(out, canon(norm(e)))
-		}
-		sort.Strings(out)
-		return out
+	texts := map[string][2]string{
+		"CanSkipEncodeIfNil": {"Optional && (T_pointer || T_binary || containerTypes[T]) on every path, for all 24 consistent assignments of the atoms", "CanSkipEncodeIfNil is not `Spec == Optional && (Tag == T_pointer || Tag == T_binary || containerTypes[T])`: fewer representations change which fields are omitted, more make the nil test read a non-pointer word: "},
+		"CanSkipIfDefault":   {"Optional && Tag != T_pointer && Default != nil on every path", "CanSkipIfDefault is not `Spec == Optional && Tag != T_pointer && Default != nil`: "},
+		"NoCopy":             {"NoCopy is the resolver's option bit", "NoCopy is not exactly (x.Opts & defs.NoCopy) != 0 (the resolver already restricted the option to string/binary including their optional-pointer form): "},
+		"Spec":               {"requiredness copied from the resolver", ""},
 	}
-	found := map[string]bool{}
-	ast.Inspect(fd, func(n ast.Node) bool {
-		as, ok := n.(*ast.AssignStmt)
-		if !ok || len(as.Lhs) != 1 || len(as.Rhs) != 1 {
-			return true
-		}
-		lhs := canon(types.ExprString(as.Lhs[0]))
-		pos := c.Pos(as.Pos())
-		switch lhs {
-		case "f.CanSkipEncodeIfNil":
-			found[lhs] = true
-			conj := flatten(as.Rhs[0], token.LAND)
-			good := len(conj) == 2
-			var got []string
-			if good {
-				first := canon(norm(conj[0]))
-				dis := set(flatten(conj[1], token.LOR))
-				got = append([]string{first}, dis...)
-				want := []string{"containerTypes[f.Type.T]", "defs.T_binary == f.Type.Tag", "defs.T_pointer == f.Type.Tag"}
-				good = first == "defs.Optional == f.Spec" && strings.Join(dis, "|") == strings.Join(want, "|")
-			}
-			s.check(good, "CanSkipEncodeIfNil", pos, "Optional && (T_pointer || T_binary || containerTypes[T])", "CanSkipEncodeIfNil is not `Spec == Optional && (Tag == T_pointer || Tag == T_binary || containerTypes[T])` (found "+strings.Join(got, " ; ")+"): fewer representations change which fields are omitted, more make the nil test read a non-pointer word")
-		case "f.CanSkipIfDefault":
-			found[lhs] = true
-			conj := set(flatten(as.Rhs[0], token.LAND))
-			want := []string{"defs.Optional == f.Spec", "defs.T_pointer != f.Type.Tag", "f.Default != nil"}
-			s.check(strings.Join(conj, "|") == strings.Join(want, "|"), "CanSkipIfDefault", pos, "Optional && Tag != T_pointer && Default != nil", "CanSkipIfDefault is not `Spec == Optional && Tag != T_pointer && Default != nil` (found "+strings.Join(conj, " ; ")+")")
-		case "f.NoCopy":
-			found[lhs] = true
-			got := strings.NewReplacer(" ", "", "(", "", ")", "").Replace(canon(norm(as.Rhs[0])))
-			prm := fd.Type.Params.List[0].Names[0].Name
-			want := "0!=" + prm + ".Opts&defs.NoCopy"
-			s.check(got == want, "NoCopy", pos, "NoCopy is the resolver's option bit", "NoCopy is not exactly (x.Opts & defs.NoCopy) != 0 (found "+got+"): the resolver already restricted the option to string/binary including their optional-pointer form")
-		case "f.Spec":
-			found[lhs] = true
-			s.check(canon(types.ExprString(as.Rhs[0])) == fd.Type.Params.List[0].Names[0].Name+".Spec", "Spec", pos, "requiredness copied from the resolver", "Spec is not copied unchanged from the resolved field")
-		}
-		return true
-	})
+	for _, flag := range []string{"CanSkipEncodeIfNil", "CanSkipIfDefault", "NoCopy", "Spec"} {
+		v := res[flag]
+		s.check(v.bad == "" && v.seen > 0, flag, c.Pos(fn.Pos()), fmt.Sprintf("%s (%d path evaluations)", texts[flag][0], v.seen), texts[flag][1]+v.bad)
+	}
 	// declared defaults exist only for types that have a default initialiser: the resolver records them (mem = val.Elem())
 	// strictly under the DefaultInitializer type assertion
 	if fn := c.SSA[pkgDefs].Func("DoResolveFields"); fn != nil {
@@ -877,12 +865,6 @@ func ruleSkipFlags(c *Ctx) []Ob {
 		}
 		s.check(found && good, "defaults-only-with-initialiser", c.Pos(fn.Pos()), "default values are recorded only for types implementing the default initialiser", "the resolver records default values for types without a default initialiser: zero-valued optional fields of such types would be dropped by the encoder")
 	}
-	for _, w := range []string{"f.CanSkipEncodeIfNil", "f.CanSkipIfDefault", "f.NoCopy", "f.Spec"} {
-		if !found[w] {
-			s.bad(strings.TrimPrefix(w, "f."), c.Pos(fd.Pos()), w+" is not assigned in fromDefsField")
-		}
-	}
-	_ = p
 	return s.obs
 }
 
